@@ -2357,7 +2357,7 @@ impl World {
             }
         }
         // ---- step 2: the follow-up on the locked position, signed by the owner
-        let locked = fx.bank.clone();
+        let mut locked = fx.bank.clone();
         let (ta_l, ta_u) = (crate::fixture::tick_array_pda(&fx.pool, ls), crate::fixture::tick_array_pda(&fx.pool, us));
         let liq_dec = pos0.liquidity.max(1);
         let (m2, d2): (Vec<Meta>, Vec<u8>) = match follow {
@@ -2448,6 +2448,36 @@ impl World {
                 };
                 (a.to_account_metas(None).iter().map(Meta::from).collect(), ::whirlpool::instruction::CollectFeesV2 { remaining_accounts_info: None }.data())
             }
+            // transfers that must be REFUSED (C15 / C18): the destination is a token account of another mint; the
+            // destination is the source itself; the lock config of ANOTHER position is offered
+            "xferm" | "xfers" | "xferl" => {
+                let omint = k(0x67, id as u8);
+                let odest = k(0x68, id as u8);
+                fx.bank.set(odest, t22, 2_100_000, t22_token_account(&omint, &stranger, 0));
+                let other_pos = k(0x69, id as u8);
+                let other_lock = Pubkey::find_program_address(&[b"lock_config", other_pos.as_ref()], &::whirlpool::ID).0;
+                {
+                    // a lock config that really belongs to another position (same owner, same pool)
+                    let mut d = fx.bank.data(&lock_config);
+                    if d.len() >= 40 {
+                        d[8..40].copy_from_slice(other_pos.as_ref());
+                    }
+                    let lc = fx.bank.get(&lock_config);
+                    fx.bank.set(other_lock, lc.owner, lc.lamports, d);
+                }
+                locked = fx.bank.clone();
+                let a = ::whirlpool::accounts::TransferLockedPosition {
+                    position_authority: fx.trader,
+                    receiver: fx.trader,
+                    position,
+                    position_mint: pmint,
+                    position_token_account: ptoken,
+                    destination_token_account: if follow == "xferm" { odest } else if follow == "xfers" { ptoken } else { dest },
+                    lock_config: if follow == "xferl" { other_lock } else { lock_config },
+                    token_2022_program: t22,
+                };
+                (a.to_account_metas(None).iter().map(Meta::from).collect(), ::whirlpool::instruction::TransferLockedPosition {}.data())
+            }
             "xfer" => {
                 let a = ::whirlpool::accounts::TransferLockedPosition { position_authority: fx.trader, receiver: fx.trader, position, position_mint: pmint, position_token_account: ptoken, destination_token_account: dest, lock_config, token_2022_program: t22 };
                 (a.to_account_metas(None).iter().map(Meta::from).collect(), ::whirlpool::instruction::TransferLockedPosition {}.data())
@@ -2459,7 +2489,7 @@ impl World {
             }
         };
         let (res2, out2) = fx.bank.execute(&m2, &d2);
-        let must_fail = matches!(follow, "dec" | "close" | "reset" | "repo" | "lock2");
+        let must_fail = matches!(follow, "dec" | "close" | "reset" | "repo" | "lock2" | "xferm" | "xfers" | "xferl");
         let line = match &res2 {
             Err(e) => {
                 let name = err_name(e, &out2.logs);
@@ -2484,7 +2514,12 @@ impl World {
             }
             Ok(()) => {
                 if must_fail {
-                    viols.push(format!("C18 `{}` succeeded on a locked position", follow));
+                    viols.push(match follow {
+                        "xferm" => "C15/C18 transfer_locked_position moved the position token into an account of ANOTHER mint".to_string(),
+                        "xfers" => "C18 transfer_locked_position accepted the source itself as destination".to_string(),
+                        "xferl" => "C15/C18 transfer_locked_position accepted the lock config of ANOTHER position".to_string(),
+                        _ => format!("C18 `{}` succeeded on a locked position", follow),
+                    });
                 }
                 if follow == "xfer" {
                     if !frozen(&fx.bank, &dest) || token_amount(&fx.bank.data(&dest)) != 1 {
